@@ -103,6 +103,7 @@ theorem setCall_calls (s : State) (c d : Nat) (k : Call) :
 @[simp] theorem setCall_reader (s : State) (c : Nat) (k : Call) : (setCall s c k).reader = s.reader := rfl
 @[simp] theorem setCall_nextId (s : State) (c : Nat) (k : Call) : (setCall s c k).nextId = s.nextId := rfl
 @[simp] theorem setCall_writerShut (s : State) (c : Nat) (k : Call) : (setCall s c k).writerShut = s.writerShut := rfl
+@[simp] theorem setCall_regClosed (s : State) (c : Nat) (k : Call) : (setCall s c k).regClosed = s.regClosed := rfl
 @[simp] theorem setCall_sub (s : State) (c : Nat) (k : Call) : (setCall s c k).sub = s.sub := rfl
 @[simp] theorem setCall_gen (s : State) (c : Nat) (k : Call) : (setCall s c k).gen = s.gen := rfl
 @[simp] theorem setCall_subQueue (s : State) (c : Nat) (k : Call) : (setCall s c k).subQueue = s.subQueue := rfl
@@ -473,10 +474,9 @@ theorem inv_push {cfg : Cfg} {s : State} (h : Inv cfg s) (e : Nat × Nat) (rest 
     · rename_i hd; subst hd; exact h.res _ f
     · exact h.res d f
 
-theorem inv_drain {cfg : Cfg} {s : State} (h : Inv cfg s) (r : List FailStep) (w : List (Nat × Nat)) (g : Nat)
-    (hr : s.reader = .failing (.drainPending :: r) w g) :
-    Inv cfg { s with pending := [], reader := .failing r (w ++ s.pending) g } := by
-  have hheld : heldEntries s = w := by simp [heldEntries, hr]
+theorem inv_drain {cfg : Cfg} {s : State} (h : Inv cfg s) (rc : Bool) (r : List FailStep) (w : List (Nat × Nat)) (g : Nat)
+    (hheld : heldEntries s = w) :
+    Inv cfg { s with regClosed := rc, pending := [], reader := .failing r (w ++ s.pending) g } := by
   constructor
   · exact h.fresh
   · exact h.inj
@@ -537,7 +537,9 @@ theorem inv_step {cfg : Cfg} {s : State} (h : Inv cfg s) (e : Ev) : Inv cfg (ste
       obtain ⟨hpc, hreg, _⟩ := canRegister_iff.1 hc
       split
       · exact inv_local h c _ rfl rfl rfl (by rw [hpc]; simp) (by simp) (by simp)
-      · exact inv_register h c hpc hreg
+      · split
+        · exact inv_local h c _ rfl rfl rfl (by rw [hpc]; simp) (by simp) (by simp)
+        · exact inv_register h c hpc hreg
     · exact h
   | write c =>
     simp only [step]
@@ -635,7 +637,9 @@ theorem inv_step {cfg : Cfg} {s : State} (h : Inv cfg s) (e : Ev) : Inv cfg (ste
     · rename_i r w g hr
       exact inv_frame h rfl rfl (by simp [heldEntries, hr]) (Nat.le_refl _) (by simp)
     · rename_i r w g hr
-      exact inv_drain h r w g hr
+      exact inv_drain h s.regClosed r w g (by simp [heldEntries, hr])
+    · rename_i r w g hr
+      exact inv_drain h true r w g (by simp [heldEntries, hr])
     · rename_i r g hr
       exact inv_frame h rfl rfl (by simp [heldEntries, hr]) (Nat.le_refl _) (by simp)
     · rename_i r e w g hr
@@ -707,6 +711,8 @@ theorem live_step {cfg : Cfg} {s : State} (h : Inv cfg s) (hl : Live s) (e : Ev)
     split
     · rename_i hc
       obtain ⟨hpc, hreg, _⟩ := canRegister_iff.1 hc
+      split
+      · exact live_local hl c _ rfl (by simp)
       split
       · exact live_local hl c _ rfl (by simp)
       · intro d
@@ -830,6 +836,13 @@ theorem live_step {cfg : Cfg} {s : State} (h : Inv cfg s) (hl : Live s) (e : Ev)
       rcases hl d h1 h2 h3 with ht | ht
       · right; simpa [ids] using ht
       · left; simpa [heldEntries, hr, ids] using ht
+    · rename_i r w g hr
+      intro d h1 h2 h3
+      right
+      simp only [heldEntries, ids, List.map_append, List.mem_append]
+      rcases hl d h1 h2 h3 with ht | ht
+      · right; simpa [ids] using ht
+      · left; simpa [heldEntries, hr, ids] using ht
     · rename_i r g hr; exact live_frame hl rfl rfl (by simp [heldEntries, hr])
     · rename_i r e w g hr
       intro d
@@ -922,6 +935,8 @@ theorem consumed_step {cfg : Cfg} {s : State} (h : Inv cfg s) (e : Ev) (c : Nat)
     split
     · rename_i hc
       obtain ⟨hpd, hrd, _⟩ := canRegister_iff.1 hc
+      split
+      · simpa using hn
       split
       · simpa using hn
       · simp only [setCall_pending, ids, List.map_cons, List.mem_cons, not_or]
@@ -1044,20 +1059,42 @@ theorem mismatch_step {cfg : Cfg} {s : State} (h : Inv cfg s) (e : Ev) (c : Nat)
 
 /-! ### C06: the failure path -/
 
-theorem drain_mem_of_sbd {l : List FailStep} (h : shutBeforeDrain l = true) : FailStep.drainPending ∈ l := by
-  induction l with
-  | nil => simp [shutBeforeDrain] at h
-  | cons a r ih =>
-    cases a <;> simp only [shutBeforeDrain] at h
-    · exact List.mem_cons_of_mem _ (by simpa using h)
-    · exact List.mem_cons_of_mem _ (ih h)
-    · cases h
-    · exact List.mem_cons_of_mem _ (ih h)
+/-- Writes fail or registrations are refused. -/
+def guarded (s : State) : Bool := s.writerShut || s.regClosed
 
-/-- The reader has executed its last `drainPending` (or has finished): nothing drains the map any more. -/
+theorem goodOrder_nodrain {g d : Bool} {l : List FailStep}
+    (h1 : FailStep.drainPending ∉ l) (h2 : FailStep.closeAndDrain ∉ l) : goodOrder g d l = d := by
+  induction l generalizing g with
+  | nil => rfl
+  | cons a r ih =>
+    simp only [List.mem_cons, not_or] at h1 h2
+    cases a <;> simp only [goodOrder]
+    · exact ih h1.2 h2.2
+    · exact ih h1.2 h2.2
+    · exact absurd rfl h1.1
+    · exact ih h1.2 h2.2
+    · exact absurd rfl h2.1
+
+theorem goodOrder_mono {d : Bool} {l : List FailStep} (h : goodOrder false d l = true) : goodOrder true d l = true := by
+  induction l generalizing d with
+  | nil => exact h
+  | cons a r ih =>
+    cases a <;> simp only [goodOrder] at h ⊢
+    · exact h
+    · exact ih h
+    · simp at h
+    · exact ih h
+    · exact h
+
+theorem goodOrder_of_guard {g d : Bool} {l : List FailStep} (h : goodOrder false d l = true) : goodOrder g d l = true := by
+  cases g
+  · exact h
+  · exact goodOrder_mono h
+
+/-- The reader has executed its last drain (or has finished): nothing drains the map any more. -/
 def PostDrain (s : State) : Prop :=
   match s.reader with
-  | .failing todo _ _ => FailStep.drainPending ∉ todo
+  | .failing todo _ _ => FailStep.drainPending ∉ todo ∧ FailStep.closeAndDrain ∉ todo
   | .finished _ => True
   | _ => False
 
@@ -1068,120 +1105,130 @@ def Failed (s : State) : Prop :=
   | .finished _ => True
   | _ => False
 
-/-- Invariant of the failure path (needs shutdown-before-drain and register-before-write). -/
+/-- Invariant of the failure path (needs a good fail-all order and register-before-write). -/
 structure DInv (s : State) : Prop where
-  shut : ∀ todo w g, s.reader = .failing todo w g → s.writerShut = true ∨ shutBeforeDrain todo = true
-  fin : ∀ g, s.reader = .finished g → s.writerShut = true
+  good : ∀ todo w g, s.reader = .failing todo w g →
+    ∃ d, goodOrder (guarded s) d todo = true ∧ (d = true → guarded s = true)
+  fin : ∀ g, s.reader = .finished g → guarded s = true
+  closedEmpty : s.regClosed = true → s.pending = []
   unwritten : PostDrain s → ∀ e ∈ s.pending, (s.calls e.2).wrote = false
 
 theorem dinv_init : DInv State.init := by
   constructor <;> simp [State.init, PostDrain]
 
-theorem postDrain_shut {s : State} (h : DInv s) (hp : PostDrain s) : s.writerShut = true := by
+theorem postDrain_guarded {s : State} (h : DInv s) (hp : PostDrain s) : guarded s = true := by
   unfold PostDrain at hp
   split at hp
   · rename_i todo w g hr
-    rcases h.shut todo w g hr with h1 | h1
-    · exact h1
-    · exact absurd (drain_mem_of_sbd h1) hp
+    obtain ⟨d, hd, hg⟩ := h.good todo w g hr
+    rw [goodOrder_nodrain hp.1 hp.2] at hd
+    exact hg hd
   · rename_i g hr; exact h.fin g hr
   · exact absurd hp id
 
-theorem dinv_step {cfg : Cfg} (hsbd : shutBeforeDrain cfg.failOrder = true) (hrbw : cfg.regBeforeWrite = true)
-    {s : State} (hI : Inv cfg s) (h : DInv s) (e : Ev) : DInv (step cfg s e) := by
-  -- events that leave reader, writerShut and pending alone and do not set `wrote`
-  have keep : ∀ s' : State, s'.reader = s.reader → s'.writerShut = s.writerShut → s'.pending = s.pending →
-      (∀ c, (s'.calls c).wrote = true → (s.calls c).wrote = true) → DInv s' := by
-    intro s' h1 h2 h3 h4
+theorem dinv_step {cfg : Cfg} (hgo : goodOrder false false cfg.failOrder = true) (hrbw : cfg.regBeforeWrite = true)
+    {s : State} (h : DInv s) (e : Ev) : DInv (step cfg s e) := by
+  -- events that leave reader, the two guards and pending alone and do not set `wrote`
+  have keep : ∀ s' : State, s'.reader = s.reader → s'.writerShut = s.writerShut → s'.regClosed = s.regClosed →
+      s'.pending = s.pending → (∀ c, (s'.calls c).wrote = true → (s.calls c).wrote = true) → DInv s' := by
+    intro s' h1 h2 h2' h3 h4
+    have hg : guarded s' = guarded s := by simp [guarded, h2, h2']
     constructor
-    · rw [h1, h2]; exact h.shut
-    · rw [h1, h2]; exact h.fin
+    · rw [h1, hg]; exact h.good
+    · rw [h1, hg]; exact h.fin
+    · rw [h2', h3]; exact h.closedEmpty
     · intro hp e he
       have hp' : PostDrain s := by simpa [PostDrain, h1] using hp
       have := h.unwritten hp' e (by rw [← h3]; exact he)
       cases hw : (s'.calls e.2).wrote
       · rfl
       · rw [h4 e.2 hw] at this; cases this
+  -- a caller-only update
+  have keepCall : ∀ (c : Nat) (k : Call), (k.wrote = true → (s.calls c).wrote = true) → DInv (setCall s c k) := by
+    intro c k hk
+    refine keep _ rfl rfl rfl rfl ?_
+    intro d; simp only [setCall_calls]; split
+    · rename_i hd; subst hd; exact hk
+    · exact id
   cases e with
   | alloc c =>
     simp only [step]; split
-    · refine keep _ rfl rfl rfl ?_
+    · refine keep _ rfl rfl rfl rfl ?_
       intro d; simp only [setCall_calls]; split <;> simp
     · exact h
-  | skip => exact keep _ rfl rfl rfl (fun _ hw => hw)
+  | skip => exact keep _ rfl rfl rfl rfl (fun _ hw => hw)
   | register c =>
     simp only [step]; split
     · rename_i hc
       obtain ⟨hpc, hreg, hwr⟩ := canRegister_iff.1 hc
       split
-      · refine keep _ rfl rfl rfl ?_
-        intro d; simp only [setCall_calls]; split
-        · rename_i hd; subst hd; simp
-        · exact id
-      · constructor
-        · simpa using h.shut
-        · simpa using h.fin
-        · intro hp e he
-          have hp' : PostDrain s := by simpa [PostDrain] using hp
-          simp only [setCall_pending, List.mem_cons] at he
-          simp only [setCall_calls]
-          rcases he with he | he
-          · subst he; simp [hwr, hrbw]
-          · have := h.unwritten hp' e (mem_erase.1 he).1
-            split
-            · simp [hwr, hrbw]
-            · exact this
+      · exact keepCall c _ (by simp)
+      · rename_i hclosed
+        split
+        · exact keepCall c _ (by simp)
+        · constructor
+          · simpa [guarded] using h.good
+          · simpa [guarded] using h.fin
+          · intro hx; exact absurd (by simpa using hx) hclosed
+          · intro hp e he
+            have hp' : PostDrain s := by simpa [PostDrain] using hp
+            simp only [setCall_pending, List.mem_cons] at he
+            simp only [setCall_calls]
+            rcases he with he | he
+            · subst he; simp [hwr, hrbw]
+            · have := h.unwritten hp' e (mem_erase.1 he).1
+              split
+              · simp [hwr, hrbw]
+              · exact this
     · exact h
   | write c =>
     simp only [step]; split
     · split
-      · refine keep _ rfl rfl rfl ?_
-        intro d; simp only [setCall_calls]; split
-        · rename_i hd; subst hd; simp
-        · exact id
+      · exact keepCall c _ (by simp)
       · rename_i hshut
         constructor
-        · simpa using h.shut
-        · simpa using h.fin
-        · intro hp
+        · simpa [guarded] using h.good
+        · simpa [guarded] using h.fin
+        · simpa using h.closedEmpty
+        · intro hp e he
           have hp' : PostDrain s := by simpa [PostDrain] using hp
-          exact absurd (postDrain_shut h hp') hshut
+          have hg := postDrain_guarded h hp'
+          have hrc : s.regClosed = true := by
+            simp only [guarded, Bool.or_eq_true] at hg
+            rcases hg with hg | hg
+            · exact absurd hg hshut
+            · exact hg
+          have := h.closedEmpty hrc
+          simp only [setCall_pending] at he
+          rw [this] at he; simp at he
     · exact h
   | writeFail c =>
     simp only [step]; split
-    · refine keep _ rfl rfl rfl ?_
-      intro d; simp only [setCall_calls]; split
-      · rename_i hd; subst hd; simp
-      · exact id
+    · exact keepCall c _ (by simp)
     · exact h
   | recv c =>
     simp only [step]; split
     · split
-      · refine keep _ rfl rfl rfl ?_
-        intro d; simp only [setCall_calls]; split
-        · rename_i hd; subst hd; simp
-        · exact id
+      · exact keepCall c _ (by simp)
       · exact h
     · exact h
   | timeout c =>
     simp only [step]; split
-    · refine keep _ rfl rfl rfl ?_
-      intro d; simp only [setCall_calls]; split
-      · rename_i hd; subst hd; simp
-      · exact id
+    · exact keepCall c _ (by simp)
     · exact h
   | cancel c =>
     simp only [step]; split
-    · refine keep _ rfl rfl rfl ?_
-      intro d; simp only [setCall_calls]; split
-      · rename_i hd; subst hd; simp
-      · exact id
+    · exact keepCall c _ (by simp)
     · exact h
   | cleanup c =>
     simp only [step]; split
     · constructor
-      · simpa using h.shut
-      · simpa using h.fin
+      · simpa [guarded] using h.good
+      · simpa [guarded] using h.fin
+      · intro hx
+        have := h.closedEmpty (by simpa using hx)
+        simp only [setCall_pending, this]
+        split <;> simp [erase]
       · intro hp e he
         have hp' : PostDrain s := by simpa [PostDrain] using hp
         have hmem : e ∈ s.pending := by
@@ -1202,12 +1249,16 @@ theorem dinv_step {cfg : Cfg} (hsbd : shutBeforeDrain cfg.failOrder = true) (hrb
         · constructor
           · intro todo w g hx; simp at hx
           · intro g hx; simp at hx
+          · exact h.closedEmpty
           · intro hp; simp [PostDrain] at hp
         · exact h
       · split
         · constructor
           · intro todo w g hx; simp at hx
           · intro g hx; simp at hx
+          · intro hx
+            have := h.closedEmpty hx
+            simp [this, erase]
           · intro hp; simp [PostDrain] at hp
         · exact h
     · exact h
@@ -1216,10 +1267,12 @@ theorem dinv_step {cfg : Cfg} (hsbd : shutBeforeDrain cfg.failOrder = true) (hrb
     · constructor
       · intro todo w g hx; simp [push] at hx
       · intro g hx; simp [push] at hx
+      · simpa [push] using h.closedEmpty
       · intro hp; simp [PostDrain, push] at hp
     · constructor
       · intro todo w g hx; simp at hx
       · intro g hx; simp at hx
+      · exact h.closedEmpty
       · intro hp; simp [PostDrain] at hp
     · exact h
   | readErr =>
@@ -1227,62 +1280,93 @@ theorem dinv_step {cfg : Cfg} (hsbd : shutBeforeDrain cfg.failOrder = true) (hrb
     · constructor
       · intro todo w g hx
         simp only [Reader.failing.injEq] at hx
-        right; rw [← hx.1]; exact hsbd
+        refine ⟨false, ?_, by simp⟩
+        rw [← hx.1]; exact goodOrder_of_guard hgo
       · intro g hx; simp at hx
+      · exact h.closedEmpty
       · intro hp
         simp only [PostDrain] at hp
-        exact absurd (drain_mem_of_sbd hsbd) hp
+        have := goodOrder_nodrain (g := false) (d := false) hp.1 hp.2
+        rw [hgo] at this; cases this
     · exact h
   | failStep =>
     simp only [step]; split
-    · rename_i r w g hr
-      constructor
-      · intro todo w' g' _; left; rfl
-      · intro g' hx; simp at hx
-      · intro hp e he
-        have hp' : PostDrain s := by
-          simp only [PostDrain, hr]; simp only [PostDrain] at hp; simpa using hp
-        exact h.unwritten hp' e he
-    · rename_i r w g hr
+    · -- shutdownWriter
+      rename_i r w g hr
+      obtain ⟨d, hd, hg⟩ := h.good _ _ _ hr
       constructor
       · intro todo w' g' hx
         simp only [Reader.failing.injEq] at hx
-        rcases h.shut _ _ _ hr with h1 | h1
-        · left; exact h1
-        · right; rw [← hx.1]; simpa [shutBeforeDrain] using h1
+        refine ⟨d, ?_, fun _ => by simp [guarded]⟩
+        rw [← hx.1]; simp only [goodOrder] at hd; simpa [guarded] using hd
       · intro g' hx; simp at hx
+      · exact h.closedEmpty
       · intro hp e he
         have hp' : PostDrain s := by
           simp only [PostDrain, hr]; simp only [PostDrain] at hp; simpa using hp
         exact h.unwritten hp' e he
-    · rename_i r w g hr
-      have hshut : s.writerShut = true := by
-        rcases h.shut _ _ _ hr with h1 | h1
-        · exact h1
-        · simp [shutBeforeDrain] at h1
+    · -- takeNotify
+      rename_i r w g hr
+      obtain ⟨d, hd, hg⟩ := h.good _ _ _ hr
       constructor
-      · intro todo w' g' _; left; exact hshut
+      · intro todo w' g' hx
+        simp only [Reader.failing.injEq] at hx
+        refine ⟨d, ?_, by simpa [guarded] using hg⟩
+        rw [← hx.1]; simp only [goodOrder] at hd; simpa [guarded] using hd
       · intro g' hx; simp at hx
+      · exact h.closedEmpty
+      · intro hp e he
+        have hp' : PostDrain s := by
+          simp only [PostDrain, hr]; simp only [PostDrain] at hp; simpa using hp
+        exact h.unwritten hp' e he
+    · -- drainPending
+      rename_i r w g hr
+      obtain ⟨d, hd, hg⟩ := h.good _ _ _ hr
+      simp only [goodOrder, Bool.and_eq_true] at hd
+      constructor
+      · intro todo w' g' hx
+        simp only [Reader.failing.injEq] at hx
+        refine ⟨true, ?_, fun _ => by simpa [guarded] using hd.1⟩
+        rw [← hx.1]; simpa [guarded] using hd.2
+      · intro g' hx; simp at hx
+      · intro _; rfl
       · intro _ e he; simp at he
-    · rename_i r g hr
+    · -- closeAndDrain
+      rename_i r w g hr
+      obtain ⟨d, hd, hg⟩ := h.good _ _ _ hr
+      simp only [goodOrder] at hd
       constructor
       · intro todo w' g' hx
         simp only [Reader.failing.injEq] at hx
-        rcases h.shut _ _ _ hr with h1 | h1
-        · left; exact h1
-        · right; rw [← hx.1]; simpa [shutBeforeDrain] using h1
+        refine ⟨true, ?_, fun _ => by simp [guarded]⟩
+        rw [← hx.1]; simpa [guarded] using hd
       · intro g' hx; simp at hx
+      · intro _; rfl
+      · intro _ e he; simp at he
+    · -- sendErrors, no waiter left
+      rename_i r g hr
+      obtain ⟨d, hd, hg⟩ := h.good _ _ _ hr
+      constructor
+      · intro todo w' g' hx
+        simp only [Reader.failing.injEq] at hx
+        refine ⟨d, ?_, by simpa [guarded] using hg⟩
+        rw [← hx.1]; simp only [goodOrder] at hd; simpa [guarded] using hd
+      · intro g' hx; simp at hx
+      · exact h.closedEmpty
       · intro hp e he
         have hp' : PostDrain s := by
           simp only [PostDrain, hr]; simp only [PostDrain] at hp; simpa using hp
         exact h.unwritten hp' e he
-    · rename_i r e w g hr
+    · -- sendErrors, one waiter
+      rename_i r e w g hr
+      obtain ⟨d, hd, hg⟩ := h.good _ _ _ hr
       constructor
       · intro todo w' g' hx
         simp only [push, setCall_reader, Reader.failing.injEq] at hx
-        simp only [push, setCall_writerShut]
-        rw [← hx.1]; exact h.shut _ _ _ hr
+        refine ⟨d, ?_, by simpa [guarded, push] using hg⟩
+        rw [← hx.1]; simpa [guarded, push] using hd
       · intro g' hx; simp [push] at hx
+      · simpa [push] using h.closedEmpty
       · intro hp x hx
         have hp' : PostDrain s := by
           simp only [PostDrain, hr]; simpa [PostDrain, push] using hp
@@ -1290,39 +1374,42 @@ theorem dinv_step {cfg : Cfg} (hsbd : shutBeforeDrain cfg.failOrder = true) (hrb
         simp only [push, setCall_calls]; split
         · rename_i hd; rw [hd] at this; simpa using this
         · exact this
-    · rename_i e w g hr
+    · -- dropping a sender that was never sent to
+      rename_i e w g hr
+      obtain ⟨d, hd, hg⟩ := h.good _ _ _ hr
       constructor
       · intro todo w' g' hx
         simp only [push, setCall_reader, Reader.failing.injEq] at hx
-        simp only [push, setCall_writerShut]
-        rw [← hx.1]; exact h.shut _ _ _ hr
+        refine ⟨d, ?_, by simpa [guarded, push] using hg⟩
+        rw [← hx.1]; simpa [guarded, push] using hd
       · intro g' hx; simp [push] at hx
+      · simpa [push] using h.closedEmpty
       · intro hp x hx
         have hp' : PostDrain s := by simp [PostDrain, hr]
         have := h.unwritten hp' x (by simpa [push] using hx)
         simp only [push, setCall_calls]; split
         · rename_i hd; rw [hd] at this; simpa using this
         · exact this
-    · rename_i g hr
-      have hshut : s.writerShut = true := by
-        rcases h.shut _ _ _ hr with h1 | h1
-        · exact h1
-        · simp [shutBeforeDrain] at h1
+    · -- finished
+      rename_i g hr
+      obtain ⟨d, hd, hg⟩ := h.good _ _ _ hr
+      simp only [goodOrder] at hd
       constructor
       · intro todo w' g' hx; simp at hx
-      · intro _ _; exact hshut
+      · intro _ _; simpa [guarded] using hg hd
+      · exact h.closedEmpty
       · intro _ e he
         exact h.unwritten (by simp [PostDrain, hr]) e he
     · exact h
   | subscribe =>
     simp only [step]; split
-    · exact keep _ rfl rfl rfl (fun _ hw => hw)
+    · exact keep _ rfl rfl rfl rfl (fun _ hw => hw)
     · exact h
-  | unsubscribe => exact keep _ rfl rfl rfl (fun _ hw => hw)
+  | unsubscribe => exact keep _ rfl rfl rfl rfl (fun _ hw => hw)
 
-theorem Reachable.dinv {cfg : Cfg} (hsbd : shutBeforeDrain cfg.failOrder = true) (hrbw : cfg.regBeforeWrite = true)
+theorem Reachable.dinv {cfg : Cfg} (hgo : goodOrder false false cfg.failOrder = true) (hrbw : cfg.regBeforeWrite = true)
     {s : State} (hs : Reachable cfg s) : DInv s :=
-  Reachable.induction (P := DInv) dinv_init (fun _ e hr ih => dinv_step hsbd hrbw hr.inv.1 ih e) hs
+  Reachable.induction (P := DInv) dinv_init (fun _ e _ ih => dinv_step hgo hrbw ih e) hs
 
 /-- Once failed, always failed; once past the drain, always past the drain. -/
 theorem failed_step (cfg : Cfg) (s : State) (e : Ev) (h : Failed s) : Failed (step cfg s e) := by
@@ -1428,6 +1515,13 @@ theorem noResidue_step {cfg : Cfg} (hr : AllRemove cfg) {s : State} (hI : Inv cf
           have := owner c (by rw [hpc]; simp) hm
           rw [hreg] at this; cases this
         · exact h c o
+      split
+      · simp only [setCall_calls, setCall_pending]; split
+        · rename_i hd; subst hd
+          intro _ hm
+          have := owner c (by rw [hpc]; simp) hm
+          rw [hreg] at this; cases this
+        · exact h c o
       · simp only [setCall_calls, setCall_pending]; split
         · rename_i hd; subst hd; simp [hpc]
         · rename_i hd
@@ -1505,6 +1599,7 @@ theorem noResidue_step {cfg : Cfg} (hr : AllRemove cfg) {s : State} (hI : Inv cf
     simp only [step]; split
     · exact h c o
     · exact h c o
+    · intro _; simp [ids]
     · intro _; simp [ids]
     · exact h c o
     · simp only [push, setCall_calls, setCall_pending]; split
@@ -1603,6 +1698,15 @@ theorem sinv_step {cfg : Cfg} (ht : FailStep.takeNotify ∈ cfg.failOrder) {s : 
         simp only [Reader.failing.injEq] at hx
         rw [← hx.2.2]
         exact ⟨this.1, Or.inr (by intro g hx; simp at hx)⟩
+      · intro g0 hx; simp at hx
+    · rename_i r w g hr
+      have := h.failing _ _ _ hr
+      constructor
+      · exact h.lt
+      · intro todo w' g0 hx
+        simp only [Reader.failing.injEq] at hx
+        rw [← hx.1, ← hx.2.2]
+        exact ⟨this.1, this.2.imp (fun hm => by simpa using hm) id⟩
       · intro g0 hx; simp at hx
     · rename_i r w g hr
       have := h.failing _ _ _ hr
